@@ -631,6 +631,21 @@ def c18_positions(plot, st, full, model_times, margin, valid_channels):
                 wy = -1 * rows.index(qid) * sp
                 if abs(y - wy) > 1e-9:
                     out.append(F(["C18"], "operation-row", op=i, qubit=qid, y=y, want=wy))
+        # individually drawn blocks: left edge exactly at the start time, single-qubit blocks on the row of their qubit
+        # (the property says nothing about widths: rotation icons have a fixed width)
+        ops_l = (full.get("LIST_TWICE") or {}).get("ops") or []
+        t_l = (full.get("TIMES") or {}).get("t") or []
+        for i, kind, x, y, wd, ht in plot.get("blocks", []):
+            if not (0 <= i < len(model_times)) or i >= len(ops_l) or i >= len(t_l):
+                continue
+            s, e = model_times[i]
+            if x != s:
+                out.append(F(["C18"], "block-left-edge!=start", op=i, kind=kind, x=x, start=s))
+            qs = [q for q, _ in ops_l[i]["l"][1] if q in rows]
+            if len(qs) == 1 and kind not in ("Barrier", "CoordinateShiftOperation"):   # barriers are anchored at their lower edge
+                want_rows = [-1 * rows.index(q) * sp for q in qs]
+                if not any(abs(y - wr) < 1e-9 for wr in want_rows):
+                    out.append(F(["C18"], "block-row", op=i, kind=kind, y=y, want=want_rows))
     return out
 
 
